@@ -96,6 +96,10 @@ def step (s : St) (ts : List String) : St × List String :=
     let g : St := { verts := (List.range nn).map fun v => (v, 0), edges := es.map fun ((a, b), d) => (a, b, (d : Int)) }
     (s, [s!"cplx {showCplx (oneShot g (natD dim))}"])
   | ["cplx"] => (s, [s!"cplx {showCplx s.extra}"])
+  | ["inceq", _] =>
+    -- the incremental tree against the one-shot expansion of the same graph: stored dimension and `operator==`
+    let dim : Int := s.extra.foldl (fun m wf => max m ((wf.1.length : Int) - 1)) (-1)
+    (s, [s!"inceq dim={dim} eq=1"])
   | ["mfnd"] => ({ s with extra := mfnd s.extra }, ["mfnd"])
   | _ => (s, ["bad-op"])
 
